@@ -180,6 +180,7 @@ func runC07(c *an.Ctx) {
 	if n := sharedPoolNewFresh(c, "C07-R10"); n < 10 {
 		c.Und("C07-R10", "pool constructors", token.NoPos, "only %d pool constructors found", n)
 	}
+	c.Inf("C07-R8", "pooled scratch buffers", token.NoPos, "%d Get/Put pairs of byte buffers examined in the whole repository", sharedPooledBufferEscape(c, "C07-R8", ""))
 	// ---- R11: arguments of the same type are not crossed on their way through the repository's own functions
 	c.Inf("C07-R11", "crossed arguments", token.NoPos, "%d call sites with two same-typed named arguments examined", sharedSwappedArgs(c, "C07-R11", ""))
 	// ---- R9: an upstream connection on which an exchange failed is closed, not pooled: a late reply left in its
